@@ -65,7 +65,7 @@ CHECKS.update({
    note='Concurrent part deviation-bounded (3 quick / 5 thorough on single-reader drivers).', design='4/C14'),
 
  'C17': dict(level='exploration', technique='exhaustive enumeration of all operation sequences to a depth on the real cache.Cache + LRU from one goroutine, plus stateless DFS over schedules (deviation bounding; atomics are scheduling points), both with instrumented values',
-   text='Sequential: every sequence of 5 (thorough 6) operations over a 19-operation alphabet on capacities 1 and 2; after every step the charge retained without any client handle - recomputed from the instrumented values, not read from the cache - fits the capacity, Evict*/Delete of an unpinned node finalise it at once, callbacks and finalisers run exactly once. Concurrent: 2-3 goroutines issue Get/Release, Get/hold, Delete with callback, Evict, EvictNS, EvictAll, SetCapacity, Close (forced or not) on colliding keys, also across a map grow; under every schedule within the bound: constructors never run while a value of the key is live, handles never carry a finalised value, values are finalised exactly once and only with no outstanding handle (unless force-closed), delete callbacks run once and never with a handle out, retained charge fits the capacity when no handle is out. Deadlocks inside the cache are counted but belong to C09.',
+   text='Sequential: every sequence of 5 (thorough 6) operations over a 20-operation alphabet on capacities 1 and 2; after every step the charge retained without any client handle - recomputed from the instrumented values, not read from the cache - fits the capacity, Evict*/Delete of an unpinned node finalise it at once, callbacks and finalisers run exactly once. Concurrent: 2-3 goroutines issue Get/Release, Get/hold, Delete with callback, Evict, EvictNS, EvictAll, SetCapacity, Close (forced or not) on colliding keys, also across a map grow; under every schedule within the bound: constructors never run while a value of the key is live, handles never carry a finalised value, values are finalised exactly once and only with no outstanding handle (unless force-closed), delete callbacks run once and never with a handle out, retained charge fits the capacity when no handle is out. Deadlocks inside the cache are counted but belong to C09.',
    note='Deviation bound 3-5 quick / 5-8 thorough.', design='4/C17'),
  'C19': dict(level='fault_enumeration', technique='explicit-state BFS over DB operation sequences; per settled closed state enumeration of manifest-loss/truncation/garbage variants and single-byte table damage, Recover by the real code, model comparison + LSM invariants',
    text='Every state to the depth: manifest and CURRENT removed, CURRENT removed, manifest cut at every record boundary -1/0/+1 and inside headers, manifest garbage -> Recover must give exactly the model contents, a well-formed LSM tree, a usable DB that reopens with Open. With the manifest gone, one byte per 16-byte stretch of each table data area (and all first blocks together) altered -> Recover succeeds, keys outside the damaged table read exactly as the model, others only values once written.',
